@@ -4,10 +4,11 @@
 //      -> per op, separated by `|`:  `<tag> <flag> <window>`;  for G: `G <cols> v…` (column 0 first)
 //
 //   ee <lin> <circ> <ncalls> {call}
-//      call := M <0..11> | W <int> | C | V
+//      call := M <0..11> | W <int> | C | V | K | Q | T   (two objects: K move-constructs the other from the
+//              current one, Q move-assigns the current one to the other, T switches to the other)
 //            | X <N> particles(cm) weights(N)
 //            | Y <N> <K> particles(cm) weights(N) prev_weights(K) likelihoods(N) transition(cm, N×K)
-//      -> per call, separated by `|`:  `<tag> <flag> <window> [est…] [b:<base estimate>…]`
+//      -> per call, separated by `|`:  `<tag> <flag> <window> <method> [est…] [b:<base estimate>…]`
 //         window is read back through the public getInfo(); the base estimate (`b:` tokens) is what a
 //         second, fresh instance with the un-windowed method (mean / mode / map) returns on the same
 //         arguments — the check recomputes the windowed estimate from its own record of those.
@@ -23,17 +24,29 @@ typedef EstimatesExtraction::ExtractionMethod EM;
 
 static std::string hb(Toks& t) {
     long dim = t.nat(), nops = t.nat();
-    HistoryBuffer h(dim);
+    std::unique_ptr<HistoryBuffer> slot[2];
+    slot[0].reset(new HistoryBuffer(dim)); slot[1].reset(new HistoryBuffer(dim));
+    int cur = 0;
     std::string out;
     for (long k = 0; k < nops; ++k) {
         std::string op = t.tok();
         Out o;
+        HistoryBuffer& h = *slot[cur];
         if (op == "A") { VectorXd v = t.vec(dim); h.addElement(v); o.s("A").n(1).n(h.getHistorySize()); }
         else if (op == "S") { long w = t.nat(); bool f = h.setHistorySize(static_cast<unsigned int>(w)); o.s("S").n(f).n(h.getHistorySize()); }
         else if (op == "D") { bool f = h.decreaseHistorySize(); o.s("D").n(f).n(h.getHistorySize()); }
         else if (op == "I") { bool f = h.increaseHistorySize(); o.s("I").n(f).n(h.getHistorySize()); }
         else if (op == "C") { bool f = h.clear(); o.s("C").n(f).n(h.getHistorySize()); }
-        else if (op == "G") { MatrixXd m = h.getHistoryBuffer(); if (m.rows() != dim) throw std::runtime_error("rows"); o.s("G").n(m.cols()); o.m(m); }
+        else if (op == "G") {
+            // queried twice: a getter must not change what it returns
+            MatrixXd m = h.getHistoryBuffer(), m2 = h.getHistoryBuffer();
+            if (!vh::same_bits(m, m2) || h.getHistorySize() != h.getHistorySize()) throw std::runtime_error("getter not idempotent");
+            o.s("G").n(m.cols()); o.m(m);
+        }
+        else if (op == "T") { cur = 1 - cur; o.s("T").n(1).n(slot[cur]->getHistorySize()); }
+        else if (op == "K") { slot[1 - cur].reset(new HistoryBuffer(std::move(h))); o.s("K").n(1).n(slot[cur]->getHistorySize()); }
+        else if (op == "Q") { *slot[1 - cur] = std::move(h); o.s("Q").n(1).n(slot[cur]->getHistorySize()); }
+        else if (op == "QS") { HistoryBuffer& self = h; h = std::move(self); o.s("QS").n(1).n(slot[cur]->getHistorySize()); }
         else throw vh::BadArgs("op:" + op);
         if (k) out += " | ";
         out += o.str();
@@ -49,14 +62,23 @@ static EM methodOf(long k) {
     return tab[k];
 }
 
-static long windowOf(const EstimatesExtraction& e) {
-    // "<| Current window size: N |>"
-    std::vector<std::string> info = e.getInfo();
-    if (info.empty()) throw std::runtime_error("getInfo");
-    const std::string& s = info[0];
+static const char* NAMES[12] = { "mean", "smean", "wmean", "emean", "mode", "smode", "wmode", "emode", "map", "smap", "wmap", "emap" };
+
+// window size and method in use, read back through the public getInfo() (asked twice: the answers must agree)
+static void info(const EstimatesExtraction& e, Out& o) {
+    std::vector<std::string> a = e.getInfo(), b = e.getInfo();
+    if (a != b || a.size() < 2) throw std::runtime_error("getInfo");
+    const std::string& s = a[0];
     size_t p = s.find(": ");
     if (p == std::string::npos) throw std::runtime_error("getInfo");
-    return std::strtol(s.c_str() + p + 2, nullptr, 10);
+    o.n(std::strtol(s.c_str() + p + 2, nullptr, 10));
+    long used = -1, count = 0;
+    for (long k = 0; k < 12; ++k) {
+        std::string pat = std::to_string(k + 1) + ") " + NAMES[k] + " <-- In use";
+        if (a[1].find(pat) != std::string::npos) { used = k; ++count; }
+    }
+    if (count != 1) throw std::runtime_error("getInfo method");
+    o.n(used);
 }
 
 static std::unique_ptr<EstimatesExtraction> make(long lin, long circ) {
@@ -66,24 +88,31 @@ static std::unique_ptr<EstimatesExtraction> make(long lin, long circ) {
 
 static std::string ee(Toks& t) {
     long lin = t.nat(), circ = t.nat(), ncalls = t.nat();
-    std::unique_ptr<EstimatesExtraction> e = make(lin, circ);
-    long method = 7; // emode is the default
+    std::unique_ptr<EstimatesExtraction> slot[2];
+    slot[0] = make(lin, circ); slot[1] = make(lin, circ);
+    long meth[2] = { 7, 7 }; // emode is the default
+    int cur = 0;
     std::string out;
     for (long k = 0; k < ncalls; ++k) {
         std::string op = t.tok();
         Out o;
-        if (op == "M") { long m = t.nat(); bool f = e->setMethod(methodOf(m)); method = m; o.s("M").n(f).n(windowOf(*e)); }
+        std::unique_ptr<EstimatesExtraction>& e = slot[cur];
+        long& method = meth[cur];
+        if (op == "M") { long m = t.nat(); bool f = e->setMethod(methodOf(m)); method = m; o.s("M").n(f); info(*e, o); }
+        else if (op == "T") { cur = 1 - cur; o.s("T").n(1); info(*slot[cur], o); }
+        else if (op == "K") { slot[1 - cur].reset(new EstimatesExtraction(std::move(*e))); meth[1 - cur] = method; method = 7; o.s("K").n(1); info(*e, o); }
+        else if (op == "Q") { *slot[1 - cur] = std::move(*e); meth[1 - cur] = method; method = 7; o.s("Q").n(1); info(*e, o); }
         else if (op == "W") {
             std::string s = t.tok(); long w = std::strtol(s.c_str(), nullptr, 10);
-            bool f = e->setMobileAverageWindowSize(static_cast<int>(w)); o.s("W").n(f).n(windowOf(*e));
+            bool f = e->setMobileAverageWindowSize(static_cast<int>(w)); o.s("W").n(f); info(*e, o);
         }
-        else if (op == "C") { bool f = e->clear(); o.s("C").n(f).n(windowOf(*e)); }
+        else if (op == "C") { bool f = e->clear(); o.s("C").n(f); info(*e, o); }
         else if (op == "V") {
             // move-construct, then move-assign back into a fresh object
             EstimatesExtraction b(std::move(*e));
             e = make(lin, circ);
             *e = std::move(b);
-            o.s("V").n(1).n(windowOf(*e));
+            o.s("V").n(1); info(*e, o);
         }
         else if (op == "X" || op == "Y") {
             bool five = (op == "Y");
@@ -94,7 +123,7 @@ static std::string ee(Toks& t) {
             MatrixXd ps0 = ps; VectorXd ws0 = ws;
             std::pair<bool, VectorXd> r = five ? e->extract(ps, ws, pw, lik, tp) : e->extract(ps, ws);
             if (!vh::same_bits(ps0, ps) || !vh::same_bits(ws0, ws)) throw std::runtime_error("inputs modified");
-            o.s(op).n(r.first).n(windowOf(*e));
+            o.s(op).n(r.first); info(*e, o);
             if (r.first) {
                 if (r.second.size() != lin + circ) throw std::runtime_error("estimate size");
                 o.m(r.second);
